@@ -287,6 +287,14 @@ def handleRaw (st : St) (c : Nat) (bs : Bytes) : St × String × String :=
   let (evs, rest) := Mqtt.Model.Framing.postEvents ringSize c (avail.length + 1) avail
   runRaw st c false evs rest
 
+/-- `rawclose <c> <hex>`: whole packets and the close of the socket right behind them - the packets
+take effect in order, then the connection ends (unless one of them ended it already) -/
+def handleRawClose (st : St) (c : Nat) (bs : Bytes) : St × String × String :=
+  if !st.m.alive c || st.mid c then (st, "-", "-") else
+  let (evs, _) := Mqtt.Model.Framing.postEvents ringSize c (bs.length + 1) bs
+  let alive := (stepsModel st.m evs).1.alive c
+  runRaw st c false (evs ++ (if alive then [Ev.close c] else [])) []
+
 def handleRawFirst (st : St) (c : Nat) (bs : Bytes) (closes : Bool) : St × String × String :=
   -- an incomplete first packet ends with the peer's close or with the connect deadline: refused either way
   match Mqtt.Model.Framing.firstEvent c rawAuth bs true with
@@ -303,6 +311,10 @@ def handle (st : St) (ws : List String) : St × String × String :=
   | ["raw", c, hex] =>
     match c.toNat?, unhex hex with
     | some c, some bs => handleRaw st c bs
+    | _, _ => (st, "bad-op", "bad-op")
+  | ["rawclose", c, hex] =>
+    match c.toNat?, unhex hex with
+    | some c, some bs => handleRawClose st c bs
     | _, _ => (st, "bad-op", "bad-op")
   | ["race", a, xa, p, hp] =>
     match a.toNat?, (if xa == "close" then some none else (unhex xa).map some), p.toNat?, unhex hp with
